@@ -791,6 +791,9 @@ def _zip(iterables):
 def install_pools():
     """Rebind the three pool names the repository looks up at call time."""
     import multiprocessing
+    import multiprocessing.pool
+    real_factory = getattr(multiprocessing.Pool, "__func__", None)
+    real_class = multiprocessing.pool.Pool
     multiprocessing.Pool = SimPool
     import importlib
     chef_mod = importlib.import_module("amr_kitchen.chef.chef")
@@ -801,3 +804,21 @@ def install_pools():
     c2p = sys.modules["amr_kitchen.chk2plt.chk2plt"]
     assert hasattr(c2p, "write_plt_bin_from_chk")
     c2p.Pool = SimPool
+    # any other module-level name of the package that was bound to a real pool class at import time
+    # (`from multiprocessing import Pool`, `from pathos.pools import ProcessPool as P`, ...)
+    try:
+        import pathos.multiprocessing as _pm
+        import pathos.pools as _pp
+        pathos_classes = {getattr(_pm, n, None) for n in ("ProcessingPool", "ProcessPool")} | \
+                         {getattr(_pp, n, None) for n in ("ProcessPool",)}
+        pathos_classes.discard(None)
+    except Exception:
+        pathos_classes = set()
+    for mname, mod in list(sys.modules.items()):
+        if mod is None or not (mname == "amr_kitchen" or mname.startswith("amr_kitchen.")):
+            continue
+        for k, v in list(vars(mod).items()):
+            if v is real_class or (real_factory is not None and getattr(v, "__func__", None) is real_factory):
+                setattr(mod, k, SimPool)
+            elif isinstance(v, type) and v in pathos_classes:
+                setattr(mod, k, SimPathosPool)
